@@ -166,37 +166,46 @@ fn convert_hgignore_pattern(
 }
 
 static HG_CONVERT_REPLACE_REGEX: LazyLock<Regex> = LazyLock::new(|| {
-    Regex::new("(\\*\\*|\\?|\\.|\\*)").unwrap()
+    Regex::new("(\\*\\*/|\\*\\*|\\?|\\.|\\*|\\[|\\]|\\(|\\)|\\^|\\$|\\+|\\||\\{|\\})").unwrap()
 });
 
 fn convert_hgignore_glob(glob: &str, file_path: &Path) -> Result<Regex, Error> {
+    // `dir/` names the directory `dir`
+    let glob = glob.trim_end_matches('/');
+
     #[cfg(not(windows))]
     {
         let mut pattern = HG_CONVERT_REPLACE_REGEX
             .replace_all(&glob, |c: &Captures| {
                 match c.index(0) {
+                    "**/" => "(?:.*/)?",
                     "**" => ".*",
                     "." => "\\.",
                     "*" => "[^/]*",
-                    "?" => "[^/]+",
+                    "?" => ".",
                     "[" => "\\[",
                     "]" => "\\]",
                     "(" => "\\(",
                     ")" => "\\)",
                     "^" => "\\^",
                     "$" => "\\$",
+                    "+" => "\\+",
+                    "|" => "\\|",
+                    "{" => "\\{",
+                    "}" => "\\}",
                     _ => error_exit(".hgignore", "Error parsing pattern"),
                 }
                 .to_string()
             })
             .to_string();
 
-        pattern = file_path
-            .to_string_lossy()
-            .to_string()
-            .replace("\\", "\\\\")
-            .add("/([^/]+/)*")
-            .add(&pattern);
+        // a glob is not rooted: it matches a whole name, or a whole path, at any depth below the
+        // repository, and everything under a directory it matches
+        pattern = String::from("^")
+            .add(&regex::escape(&file_path.to_string_lossy()))
+            .add("/(?:.*/)?")
+            .add(&pattern)
+            .add("(?:/|$)");
 
         Regex::new(&pattern)
     }
@@ -209,25 +218,28 @@ fn convert_hgignore_glob(glob: &str, file_path: &Path) -> Result<Regex, Error> {
                     "**" => ".*",
                     "." => "\\.",
                     "*" => "[^\\\\]*",
-                    "?" => "[^\\\\]+",
+                    "?" => ".",
                     "[" => "\\[",
                     "]" => "\\]",
                     "(" => "\\(",
                     ")" => "\\)",
                     "^" => "\\^",
                     "$" => "\\$",
+                    "+" => "\\+",
+                    "|" => "\\|",
+                    "{" => "\\{",
+                    "}" => "\\}",
                     _ => error_exit(".hgignore", "Error parsing pattern"),
                 }
                 .to_string()
             })
             .to_string();
 
-        pattern = file_path
-            .to_string_lossy()
-            .to_string()
-            .replace("\\", "\\\\")
-            .add("\\\\([^\\\\]+\\\\)*")
-            .add(&pattern);
+        pattern = String::from("^")
+            .add(&regex::escape(&file_path.to_string_lossy()))
+            .add("\\\\(?:.*\\\\)?")
+            .add(&pattern)
+            .add("(?:\\\\|$)");
 
         Regex::new(&pattern)
     }
@@ -236,32 +248,32 @@ fn convert_hgignore_glob(glob: &str, file_path: &Path) -> Result<Regex, Error> {
 fn convert_hgignore_regexp(regexp: &str, file_path: &Path) -> Result<Regex, Error> {
     #[cfg(not(windows))]
     {
-        let mut pattern = file_path.to_string_lossy().to_string();
-        if !regexp.starts_with("^") {
-            pattern = pattern.add("/([^/]+/)*");
-        }
+        // the expression is applied to the path relative to the repository; it may match anywhere
+        // in that path unless it starts with `^`
+        let mut pattern = String::from("^")
+            .add(&regex::escape(&file_path.to_string_lossy()))
+            .add("/(?:");
 
         if !regexp.starts_with("^") {
             pattern = pattern.add(".*");
         }
 
-        pattern = pattern.add(&regexp.trim_start_matches("^"));
+        pattern = pattern.add(&regexp.trim_start_matches("^")).add(")");
 
         Regex::new(&pattern)
     }
 
     #[cfg(windows)]
     {
-        let mut pattern = file_path.to_string_lossy().to_string();
-        if !regexp.starts_with("^") {
-            pattern = pattern.add("\\\\([^\\\\]+\\\\)*");
-        }
+        let mut pattern = String::from("^")
+            .add(&regex::escape(&file_path.to_string_lossy()))
+            .add("\\\\(?:");
 
         if !regexp.starts_with("^") {
             pattern = pattern.add(".*");
         }
 
-        pattern = pattern.add(&regexp.trim_start_matches("^"));
+        pattern = pattern.add(&regexp.trim_start_matches("^")).add(")");
 
         Regex::new(&pattern)
     }
